@@ -210,13 +210,29 @@ def py_decode_lit(tok):
     tok = tok.strip()
     if tok.startswith('{\\overline{') and tok.endswith('}'):
         inner = tok[len('{\\overline{'):-1]
-        j = inner.find('}')
+        depth, j = 0, -1
+        for i, ch in enumerate(inner):        # the brace that closes \overline{ (names with balanced braces)
+            if ch == '{':
+                depth += 1
+            elif ch == '}':
+                if depth == 0:
+                    j = i
+                    break
+                depth -= 1
         return None if j < 0 else [False, inner[:j] + inner[j + 1:]]
     if tok.startswith('\\overline{') and tok.endswith('}'):
         return [False, tok[len('\\overline{'):-1]]
     if tok.startswith('{') and tok.endswith('}'):
         return [True, tok[1:-1]]
     return None
+
+
+def balanced(name):
+    """the part of the name that _print_latex puts inside \\overline{...} (up to the first _ or ^ after position 0) has no brace:
+    then the first closing brace ends it, whatever the rest of the name is"""
+    sp = [i for i in (name.find('_'), name.find('^')) if i > 0]
+    base = name[:min(sp)] if sp else ''
+    return '{' not in base and '}' not in base
 
 
 _BLOCK = re.compile(r'\\begin\{align\}(.*?)\n\\end\{align\}', re.S)
@@ -1297,7 +1313,7 @@ def run_small(ctx, cnfgen, quick, formulas, pre):
         if names_ok and decodable and want_lits is not None:
             ctx.count(pre + 'latex-literals', c['label'], len(F) > 0)
             # the harness's own row decoder (used alone on the huge outputs) must agree with the model's decoder on every small text
-            if not j['longname'] and not any(nm[:1].isdigit() or ' + ' in nm or '\\lor' in nm or nm == '' for nm in c['tex_labels']):
+            if not j['longname'] and not any(nm[:1].isdigit() or ' + ' in nm or '\\lor' in nm or nm == '' or not balanced(nm) for nm in c['tex_labels']):
                 pl = py_latex_rows(j['snippet'], c['is_opb'])
                 if pl[:2] != [dlits[0], [r[1] if r is not None and r != 'none' else None for r in dlits[1]]]:
                     ctx.violation('correspondence', 'the LaTeX row decoder of the harness (py_latex_rows) and the decoder of the model (Latex.v latex_litrows) differ',
